@@ -2,7 +2,6 @@ package redis
 
 import (
 	"bytes"
-	"strings"
 	"sync"
 
 	redigo "github.com/gomodule/redigo/redis"
@@ -100,7 +99,8 @@ func (s *sub) Init(clientIDs []string) error {
 			if err != nil {
 				return err
 			}
-			s.memStore.SubscribeLocked(strings.TrimLeft(v, subPrefix), sub)
+			// v is the client id (the hash key is subPrefix+v)
+			s.memStore.SubscribeLocked(v, sub)
 		}
 	}
 	return nil
